@@ -168,4 +168,35 @@ theorem C20_noshift_datum_differs :
     datumTypeOf (parse (toWkt noshiftWitness {})) = some pjdWGS84 := by
   decide +kernel
 
+/-! ## parse agreement -/
+
+/-
+FULL STATEMENT (not proved in this generality):
+
+  theorem C20_parse_agree (c : Crs) (st : Style) (h : wellFormed c = true) : agree c st = true
+
+i.e. for every well-formed description, in every spelling, `parse (toProj4 c st)` and
+`parse (toWkt c st)` both succeed and every field a transformer reads (projection up to the alias
+table, Lat0/1/2, Long0, K0, X0/Y0 in metres, A, B, Rf, Es, Ep2, sphere, ToMeter, axis, datum type,
+datum parameters, datum ellipsoid) equals `expected c` as an exact rational.  What is missing is the
+symbolic string-level reasoning (splitting on '+', '=', ',', brackets; `parseFloat (renderDec d)`)
+for arbitrary numerals.  What is proved: the statement for ALL kinds x ALL units x ALL datum flavours
+x ALL spelling switches on one family of generic, pairwise distinct, non-round numbers (so that a
+mis-mapped PARAMETER name, a missed unit conversion of the false origin, a wrong alias or a wrong
+datum decision makes the kernel reject the proof), and `agree c st` is evaluated in exact arithmetic
+by the judge on every generated well-formed case (DIFF when false).
+-/
+
+/-- **C20_parse_agree_partial** — PROJ.4 and WKT of the same description parse to the same exact
+fields, namely those intended (`expected`): kernel-checked on the family `family k` for every kind. -/
+theorem C20_parse_agree_partial :
+    ∀ k ∈ [Kind.geog, .merc, .lcc, .aea, .eqdc, .tmerc], ∀ x ∈ family k, (wellFormed x.1 && agree x.1 x.2) = true := by
+  decide +kernel
+
+/-- non-vacuity of `wellFormed` and sensitivity of `agree`: swapping the two standard parallels in
+the description changes the intended reading -/
+example : wellFormed (sample .lcc .foot 1) = true := by decide +kernel
+example : isView (parse (toWkt (sample .lcc .metre 0) {})) (expected { sample .lcc .metre 0 with lat1 := ⟨46125, 3⟩, lat2 := ⟨443333, 4⟩ }) = false := by
+  decide +kernel
+
 end GeomV.C20
